@@ -381,15 +381,15 @@ Definition m_reverse_list (l : list Z) : list Z :=
 Definition m_reverse (c : call) : res := RSeq (m_reverse_list (elems (c_seq c))).
 
 (* ==== merge.go ======================================================================================= *)
-(* seq, _ := slip.CoerceToList(arg).(slip.List): nil is the empty list.  The element of the first sequence
-   is taken when predicate(k1, k2) holds, otherwise the element of the second. *)
+(* seq, _ := slip.CoerceToList(arg).(slip.List): nil is the empty list.  The element of the second
+   sequence is taken only when predicate(k2, k1) holds, otherwise the element of the first (stable). *)
 Definition lt_of (t : testarg) (a b : Z) : bool := test2 t a b.
 Fixpoint m_merge_lists (t : testarg) (k : option keyfn) (l1 : list Z) : list Z -> list Z :=
   fix inner (l2 : list Z) : list Z :=
     match l1, l2 with
     | [], _ => l2
     | _, [] => l1
-    | x :: a, y :: b => if lt_of t (key_app k x) (key_app k y) then x :: m_merge_lists t k a l2 else y :: inner b
+    | x :: a, y :: b => if lt_of t (key_app k y) (key_app k x) then y :: inner b else x :: m_merge_lists t k a l2
     end.
 Definition m_merge (c : call) : res :=
   RSeq (m_merge_lists (c_test c) (c_key c) (elems (c_seq c)) (elems (c_seq2 c))).
